@@ -116,7 +116,7 @@ func Verif_C07_move() {
 	// for the whole-account move and the two-denomination list
 	which := verif_choice("message", 8)
 	delegated := false
-	if (el < 0 || verif_tier() > 0) && (which == 7 || which == 2) {
+	if el < 0 && (which == 7 || which == 2) {
 		delegated = verif_choice("delegated", 2) == 1
 	}
 	sender := verifC07Sender2(ctx, delegated)
